@@ -307,7 +307,7 @@ fn robust<L: Drv>(text: &str, fails: &mut Vec<Fail>, evals: &mut u64, oks: &mut 
     }
 }
 
-const TOKENS: [&str; 13] = ["(", ")", "[", "]", ":=", "?a", "$x", "var", "app", "lam", "7", "==", ","];
+const TOKENS: [&str; 14] = ["(", ")", "[", "]", ":=", "?a", "$x", "var", "app", "lam", "7", "==", ",", "$4294967295"];
 
 fn tokens_of(text: &str) -> Vec<String> {
     // split a printed text into tokens (printed texts separate tokens by spaces or brackets)
